@@ -286,11 +286,11 @@ def _worker(c):
 
 def run(rec, tier, seed):
     quick = tier == 'quick'
-    etas = [0.1, 0.3, 0.45] if quick else [0.05, 0.1, 0.15, 0.2, 0.25, 0.3, 0.35, 0.4, 0.45]
+    etas = [0.05, 0.15, 0.25, 0.35, 0.45] if quick else [0.025 * i for i in range(1, 20)]
     cases = [{'kind': 'wt', 'eta': e, 'levels': 6} for e in etas]
-    pots = ['HS', 'HCLJ', 'LJ'] if quick else list(POTS)
+    pots = list(POTS)
     clos = ['PY', 'HNC', 'MSAhc']
-    kTs = [1.0] if quick else [0.7, 1.0, 3.0]
+    kTs = [0.7, 3.0] if quick else [0.7, 1.0, 1.5, 3.0]
     drs = [0.1] if quick else [0.1, 0.05, 0.025]
     for p, cl, kT, dr in itertools.product(pots, clos, kTs, drs):
         if cl == 'MSAhc' and p not in ref.HARD_CORE_POTENTIALS:
